@@ -170,11 +170,11 @@ def gen_stream(r, kind, opts):
         return b"".join(parts) + struct.pack("!BxH", 0, nrect) + rects + sess.bell(), authresp, "zero-area"
     if how < .95:
         # ZRLE with surplus / short tile data, zero dimensions
-        zr = enc_zrle(r, pf, 0, 0, r.choice([0, 1, 3, 64, 65]), r.choice([0, 0, 1, 2, 64]))
+        zr = enc_zrle(r, pf, 0, 0, r.choice([0, 1, 3, 8, 64, 65]), r.choice([0, 0, 0, 1, 2, 64]))
         k = r.random()
         if k < .5:
             # one more tile than the geometry has room for, of every sub-encoding class (raw, solid, packed palette 2..16, RLE, palette RLE)
-            sub = r.choice([0, 1, 2, 2, 3, 4, 5, 16, 16, 17, 127, 128, 129, 130, 255])
+            sub = r.choice([0, 1, 2, 2, 3, 3, 3, 4, 4, 4, 5, 9, 16, 16, 17, 127, 128, 129, 130, 255])
             zr.zraw += bytes([sub]) + bytes(r.randrange(256) for _ in range(r.choice([0, 1, 3, 9, 40, 70])))
         elif k < .7:
             zr.zraw = zr.zraw[:r.randrange(len(zr.zraw) + 1)]
